@@ -426,7 +426,7 @@ func (s *Sim) opC13Extend() {
 // c13Upgrade buys a different plan index, preferring one at least as expensive as the current.
 func (s *Sim) c13Upgrade(c *ConsumerActor, cur *subscriptiontypes.Subscription) {
 	r := s.R
-	curPlan, _ := s.K.Plans.FindPlan(s.Ctx, cur.PlanIndex, cur.PlanBlock)
+	curPlan, curOK := s.K.Plans.FindPlan(s.Ctx, cur.PlanIndex, cur.PlanBlock)
 	var pricier, other []string
 	for _, n := range s.PlanNames {
 		if n == cur.PlanIndex {
@@ -436,7 +436,7 @@ func (s *Sim) c13Upgrade(c *ConsumerActor, cur *subscriptiontypes.Subscription) 
 		if !ok {
 			continue
 		}
-		if !p.Price.Amount.LT(curPlan.Price.Amount) {
+		if !curOK || !p.Price.Amount.LT(curPlan.Price.Amount) {
 			pricier = append(pricier, n)
 		} else {
 			other = append(other, n)
